@@ -134,29 +134,62 @@ Proof.
   destruct free; [injection E as <- <-; lia|]. apply IH in E; [lia|exact Hp].
 Qed.
 
+Lemma t_update_unique x now ip d ttl t ok t' : unique_live now t -> t_update_client x now ip d ttl t = (ok, t') -> unique_live now t'.
+Proof.
+  intros U E. unfold t_update_client in E. destruct (to_uip x ip) as [n|]; [|injection E as <- <-; exact U].
+  destruct (t_set_lease now n d (now + ttl) t) as [ok1 t2] eqn:E1.
+  pose proof (t_set_lease_unique _ _ _ _ _ _ _ U E1) as U1.
+  destruct ok1; [injection E as <- <-; exact U1|].
+  destruct (t_inject now n d (now + ttl) false t2) as [ok2 t3] eqn:E2.
+  pose proof (t_inject_unique _ _ _ _ _ _ _ _ U1 E2) as U2.
+  destruct ok2; cbn [negb] in E; [|injection E as <- <-; exact U2].
+  eapply t_set_lease_unique; eauto.
+Qed.
+
+Lemma t_hold_cases x now ip d ttl t :
+  t_hold_client x now ip d ttl t = (true, t) \/ t_hold_client x now ip d ttl t = t_update_client x now ip d ttl t.
+Proof.
+  unfold t_hold_client. destruct (to_uip x ip) as [n|] eqn:E; [|right; unfold t_update_client; rewrite E; reflexivity].
+  destruct (t_lookup now n d t) as [[p|] [q|]]; auto.
+  destruct (Nat.eqb p q); auto. destruct (nth_error t p) as [e|]; auto.
+  destruct (now + ttl <? e_until e)%Z; auto.
+Qed.
+
+Lemma t_hold_unique x now ip d ttl t ok t' : unique_live now t -> t_hold_client x now ip d ttl t = (ok, t') -> unique_live now t'.
+Proof.
+  intros U E. destruct (t_hold_cases x now ip d ttl t) as [H|H]; rewrite H in E.
+  - injection E as <- <-. exact U.
+  - eapply t_update_unique; eauto.
+Qed.
+
+Lemma t_find_time x perm c pr now sg d t r n1 : (forall a, (0 <= snd (pr a))%Z) ->
+  t_find_ip x perm c pr now sg d t = (r, n1) -> (now <= n1)%Z.
+Proof.
+  intros Hp E. unfold t_find_ip in E. destruct (bound_ip now d t); [injection E as <- <-; lia|].
+  destruct (dynamic_disabled x); [injection E as <- <-; lia|]. eapply t_search_time; eauto.
+Qed.
+
 Lemma t_step_unique x t now op res t' now' : probe_nonneg op -> unique_live now t ->
   t_step x t now op = (res, t', now') -> unique_live now' t' /\ (now <= now')%Z.
 Proof.
-  intros Hp U H. destruct op as [ip d ttl|d|ip d|perm c pr sg d]; cbn [t_step] in H.
+  intros Hp U H. destruct op as [ip d ttl|d|ip d|perm c pr sg d|ip d ttl|perm c pr sg d ttl]; cbn [t_step] in H.
   - destruct (t_update_client x now ip d ttl t) as [ok t1] eqn:E. injection H as <- <- <-. split; [|lia].
-    unfold t_update_client in E. destruct (to_uip x ip) as [n|]; [|injection E as <- <-; exact U].
-    destruct (t_set_lease now n d (now + ttl) t) as [ok1 t2] eqn:E1.
-    pose proof (t_set_lease_unique _ _ _ _ _ _ _ U E1) as U1.
-    destruct ok1; [injection E as <- <-; exact U1|].
-    destruct (t_inject now n d (now + ttl) false t2) as [ok2 t3] eqn:E2.
-    pose proof (t_inject_unique _ _ _ _ _ _ _ _ U1 E2) as U2.
-    destruct ok2; cbn [negb] in E; [|injection E as <- <-; exact U2].
-    eapply t_set_lease_unique; eauto.
+    eapply t_update_unique; eauto.
   - injection H as <- <- <-. split; [exact U|lia].
   - destruct (t_add_permanent x now ip d t) as [ok t1] eqn:E. injection H as <- <- <-. split; [|lia].
     unfold t_add_permanent in E. destruct (to_uip x ip) as [n|]; [|injection E as <- <-; exact U].
     eapply t_inject_unique; eauto.
   - destruct (t_find_ip x perm c pr now sg d t) as [r n1] eqn:E. injection H as <- <- <-.
-    assert (Hle : (now <= n1)%Z).
-    { unfold t_find_ip in E. destruct (bound_ip now d t); [injection E as <- <-; lia|].
-      destruct (dynamic_disabled x); [injection E as <- <-; lia|].
-      eapply t_search_time; eauto. }
+    pose proof (t_find_time _ _ _ _ _ _ _ _ _ _ Hp E) as Hle.
     split; [eapply unique_live_mono; eauto|exact Hle].
+  - destruct (t_hold_client x now ip d ttl t) as [ok t1] eqn:E. injection H as <- <- <-. split; [|lia].
+    eapply t_hold_unique; eauto.
+  - unfold t_offer_ip in H. destruct (t_find_ip x perm c pr now sg d t) as [r n1] eqn:E.
+    pose proof (t_find_time _ _ _ _ _ _ _ _ _ _ Hp E) as Hle.
+    assert (U1 : unique_live n1 t) by (eapply unique_live_mono; eauto).
+    destruct r as [a|]; [|injection H as <- <- <-; auto].
+    destruct (t_hold_client x n1 (Some a) d ttl t) as [ok t2] eqn:Eh. injection H as <- <- <-.
+    split; [eapply t_hold_unique; eauto|exact Hle].
 Qed.
 
 (* the table (and clock) a history ends in; every reachable state is the end of some history *)
@@ -246,19 +279,36 @@ Qed.
 Lemma stable_app t l : stable t (t ++ l).
 Proof. intros p e H. exists e. rewrite nth_error_app1; [auto|]. apply nth_error_Some. congruence. Qed.
 
-Lemma t_step_stable x t now op res t' now' : unique_live now t -> t_step x t now op = (res, t', now') -> stable t t'.
+Lemma t_update_stable x now ip d ttl t ok t' : unique_live now t -> t_update_client x now ip d ttl t = (ok, t') -> stable t t'.
 Proof.
-  intros U H. destruct op as [ip d ttl|d|ip d|perm c pr sg d]; cbn [t_step] in H.
-  - destruct (t_update_client x now ip d ttl t) as [ok t1] eqn:E. injection H as <- <- <-.
-    pose proof (t_update_spec _ _ _ _ _ _ _ _ U E) as S. destruct (to_uip x ip).
-    + destruct S as [(p & e & _ & _ & _ & _ & ->)|[(_ & _ & -> & _)|(_ & _ & _ & ->)]];
-        [apply stable_set_until|apply stable_app|apply stable_refl].
-    + destruct S as [_ ->]. apply stable_refl.
+  intros U E. pose proof (t_update_spec _ _ _ _ _ _ _ _ U E) as S. destruct (to_uip x ip).
+  - destruct S as [(p & e & _ & _ & _ & _ & ->)|[(_ & _ & -> & _)|(_ & _ & _ & ->)]];
+      [apply stable_set_until|apply stable_app|apply stable_refl].
+  - destruct S as [_ ->]. apply stable_refl.
+Qed.
+
+Lemma t_hold_stable x now ip d ttl t ok t' : unique_live now t -> t_hold_client x now ip d ttl t = (ok, t') -> stable t t'.
+Proof.
+  intros U E. destruct (t_hold_cases x now ip d ttl t) as [H|H]; rewrite H in E.
+  - injection E as <- <-. apply stable_refl.
+  - eapply t_update_stable; eauto.
+Qed.
+
+Lemma t_step_stable x t now op res t' now' : probe_nonneg op -> unique_live now t -> t_step x t now op = (res, t', now') -> stable t t'.
+Proof.
+  intros Hp U H. destruct op as [ip d ttl|d|ip d|perm c pr sg d|ip d ttl|perm c pr sg d ttl]; cbn [t_step] in H.
+  - destruct (t_update_client x now ip d ttl t) as [ok t1] eqn:E. injection H as <- <- <-. eapply t_update_stable; eauto.
   - injection H as <- <- <-. apply stable_refl.
   - destruct (t_add_permanent x now ip d t) as [ok t1] eqn:E. injection H as <- <- <-.
     unfold t_add_permanent in E. destruct (to_uip x ip); [|injection E as <- <-; apply stable_refl].
     destruct (t_inject_spec _ _ _ _ _ _ _ _ E) as [(_ & _ & _ & ->)|(_ & -> & _)]; [apply stable_app|apply stable_refl].
   - destruct (t_find_ip x perm c pr now sg d t). injection H as <- <- <-. apply stable_refl.
+  - destruct (t_hold_client x now ip d ttl t) as [ok t1] eqn:E. injection H as <- <- <-. eapply t_hold_stable; eauto.
+  - unfold t_offer_ip in H. destruct (t_find_ip x perm c pr now sg d t) as [r n1] eqn:E.
+    pose proof (t_find_time _ _ _ _ _ _ _ _ _ _ Hp E) as Hle.
+    destruct r as [a|]; [|injection H as <- <- <-; apply stable_refl].
+    destruct (t_hold_client x n1 (Some a) d ttl t) as [ok t2] eqn:Eh. injection H as <- <- <-.
+    eapply t_hold_stable; [|exact Eh]. eapply unique_live_mono; eauto.
 Qed.
 
 Lemma t_final_stable h : forall x t now, clock_ok h -> unique_live now t -> stable t (fst (t_final x t now h)).
@@ -268,7 +318,7 @@ Proof.
   destruct (t_step x t (now + dt) op) as [[res t'] now'] eqn:E.
   assert (U0 : unique_live (now + dt) t) by (eapply unique_live_mono; [|exact U]; lia).
   destruct (t_step_unique _ _ _ _ _ _ _ Hp U0 E) as [U1 _].
-  eapply stable_trans; [eapply t_step_stable; eauto|apply IH; auto].
+  eapply stable_trans; [eapply t_step_stable; [exact Hp|exact U0|exact E]|apply IH; auto].
 Qed.
 
 (* once a permanent binding (a, d) exists it is what a lookup of d returns after any further history *)
